@@ -21,6 +21,7 @@ def replay(d):
     if second:
         targets += ['fb%s.r0' % inst, 'fb%s.o0' % inst]
     targets.append('nope.x')
+    targets.append('fa.zz')
     input_names = ['fa.i%d' % j for j in range(M)]
     if second:
         input_names.append('fb%s.j0' % inst)
@@ -200,7 +201,8 @@ def replay(d):
         if n > 2 + len(cnt['waits'].get(name, ())):
             found.append('attempts')
     if r1['exc'] is not None:
-        if r1['exc'] != 'NotImplementedError':
+        uses_unknown = any(v == 2 + len(input_names) + targets.index('fa.zz') for k, v in program.items() if k.startswith("('act'"))
+        if r1['exc'] != 'NotImplementedError' and not (r1['exc'] == 'AssertionError' and uses_unknown):
             found.append('abort-' + r1['exc'])
         return {'found': found, 'detail': 'exception %s' % r1['exc']}
     s = r1['s']
